@@ -2,7 +2,10 @@ package node
 
 import (
 	"bytes"
+	"fmt"
 	"strings"
+
+	"github.com/freeconf/yang/fc"
 )
 
 type PathMatcher interface {
@@ -26,7 +29,10 @@ type segments []string
 
 func ParsePathExpression(selector string) (*PathMatchExpression, error) {
 	pe := &PathMatchExpression{}
-	pe.parsex(&lex{selector: selector})
+	l := &lex{selector: selector}
+	if err := pe.parsex(l, 0); err != nil {
+		return nil, err
+	}
 	return pe, nil
 }
 
@@ -55,36 +61,42 @@ func (l *lex) done() bool {
 	return l.pos >= len(l.selector)
 }
 
-func (e *PathMatchExpression) parsex(l *lex) {
-	s := e
-	var split *PathMatchExpression
+var errPathExpression = fmt.Errorf("%w. unbalanced parentheses in path expression", fc.BadRequestError)
+
+// parsex reads alternatives separated by ';' up to the end of input (depth 0) or to the
+// closing parenthesis of the group it was called for (depth > 0).  Each alternative is a
+// sequence of idents and groups; alternatives without any ident are ignored.
+func (e *PathMatchExpression) parsex(l *lex, depth int) error {
+	s := &PathMatchExpression{}
 	for !l.done() {
 		t := l.next()
 		switch t {
 		case "(":
 			nested := &PathMatchExpression{}
-			nested.parsex(l)
+			if err := nested.parsex(l, depth+1); err != nil {
+				return err
+			}
 			s.expandPaths(nested)
 		case ";":
-			if split != nil {
-				e.appendPaths(s)
-			}
-			split = &PathMatchExpression{}
-			s = split
+			e.appendPaths(s)
+			s = &PathMatchExpression{}
 		case ")":
-			if split != nil {
-				e.appendPaths(s)
+			if depth == 0 {
+				return errPathExpression
 			}
-			return
+			e.appendPaths(s)
+			return nil
 		case "/":
 			// ignore natural delimitor already used in lexer
 		default:
 			s.addSegment(t)
 		}
 	}
-	if split != nil {
-		e.appendPaths(s)
+	if depth > 0 {
+		return errPathExpression
 	}
+	e.appendPaths(s)
+	return nil
 }
 
 // expandPaths incoming paths into current paths
@@ -102,11 +114,18 @@ func (e *PathMatchExpression) parsex(l *lex) {
 //	   [c, d, e, f]
 //	   [c, d, g, h]
 func (e *PathMatchExpression) expandPaths(sub *PathMatchExpression) {
+	if len(sub.paths) == 0 {
+		return
+	}
+	if len(e.paths) == 0 {
+		e.paths = []segments{nil}
+	}
 	expanded := make([]segments, len(e.paths)*len(sub.paths))
 	for i, dest := range e.paths {
 		for j, src := range sub.paths {
 			k := (i * len(sub.paths)) + j
-			expanded[k] = append(dest, src...)
+			// never share a backing array between two paths
+			expanded[k] = append(append(make(segments, 0, len(dest)+len(src)), dest...), src...)
 		}
 	}
 	e.paths = expanded
@@ -145,7 +164,7 @@ func (e *PathMatchExpression) addSegment(ident string) {
 		e.paths = []segments{[]string{ident}}
 	} else {
 		for i, path := range e.paths {
-			e.paths[i] = append(path, ident)
+			e.paths[i] = append(path[:len(path):len(path)], ident)
 		}
 	}
 }
